@@ -26,11 +26,16 @@ fn make(shape: Shape, counter: u64, rng: &mut Rng) -> Option<Triple> {
 }
 
 fn emit(hash: &str, msg: &[u8], sig: &[u8], pk: &[u8], tag: &str, expect_valid: Option<bool>, cost: f64) {
+    emit_kf(hash, msg, sig, pk, tag, expect_valid, cost, "")
+}
+
+#[allow(clippy::too_many_arguments)]
+fn emit_kf(hash: &str, msg: &[u8], sig: &[u8], pk: &[u8], tag: &str, expect_valid: Option<bool>, cost: f64, kf: &str) {
     let v = verify3(hash, msg, sig, pk);
     let mut l = Line::new("verify");
     l.str("hash", hash).hex("msg", msg).hex("sig", sig).hex("pk", pk).raw("verdict", &out_unit_json(&v[0]))
         .raw("verdict_vk_sig", &out_unit_json(&v[1])).raw("verdict_vk_ref", &out_unit_json(&v[2]))
-        .str("tag", tag).raw("cost", &format!("{:.3}", cost));
+        .str("tag", tag).raw("cost", &format!("{:.3}", cost)).str("kf", kf);
     if !is_sha(hash) {
         l.raw("nomodel", "true");
     }
@@ -70,6 +75,10 @@ pub fn run(seed: u64, thorough: bool) {
         (Shape { hash: "sha256_128", levels: vec![(3, 1), (3, 1), (3, 1)] }, 37),
         (Shape { hash: "shake256_128", levels: vec![(3, 1), (3, 1)] }, 5),
         (Shape { hash: "shake256_256", levels: vec![(1, 1)] }, 3),
+        // rows whose checksum shift deviates from Appendix B (known finding): RFC 8554 rejects their signatures
+        (Shape { hash: "sha256_128", levels: vec![(1, 1)] }, 1),
+        (Shape { hash: "sha256_192", levels: vec![(1, 1), (3, 1)] }, 9),
+        (Shape { hash: "sha256_128", levels: vec![(3, 1), (2, 1)] }, 6),
     ];
     let mut triples: Vec<Triple> = Vec::new();
     for (s, c) in shapes {
@@ -91,7 +100,10 @@ pub fn run(seed: u64, thorough: bool) {
     for (ti, t) in triples.iter().enumerate() {
         let h = t.shape.hash;
         let n = t.shape.n();
-        emit(h, &t.msg, &t.sig, &t.pk, "valid", Some(true), vcost(t));
+        emit_kf(h, &t.msg, &t.sig, &t.pk, "valid", Some(true), vcost(t), kf_of(&t.shape));
+        if !kf_of(&t.shape).is_empty() {
+            continue; // mutants of these are judged with the shapes that follow the RFC
+        }
         // every prefix of the signature (first two triples; a stride for the others) and of the key
         let stride = if ti < 2 || thorough { 1 } else { 13 };
         let mut k = 0;
@@ -173,6 +185,7 @@ pub fn run(seed: u64, thorough: bool) {
     }
     // splices: signature of one key under another key of the same hash; other hash; chain truncation /
     // extension with the message replaced by a child public key
+    triples.retain(|t| kf_of(&t.shape).is_empty());
     for a in 0..triples.len() {
         for b in 0..triples.len() {
             if a == b {
